@@ -115,6 +115,9 @@ pub fn xor_into(e: XorLengthMismatch) -> (r: ScramErrorKind) ensures r is XorLen
 //@@ type file=fe2o3-amqp/src/auth/scram/attributes.rs kind=const name=GS2_HEADER
 //@@ subst `&str` => `&'static str` rule=R11
 //@@ end
+//@@ type file=fe2o3-amqp/src/auth/scram/attributes.rs kind=const name=USERNAME_KEY
+//@@ subst `&str` => `&'static str` rule=R11
+//@@ end
 //@@ type file=fe2o3-amqp/src/auth/scram/attributes.rs kind=const name=RESERVED_MEXT
 //@@ subst `&str` => `&'static str` rule=R11
 //@@ end
@@ -362,6 +365,25 @@ impl BitOpsS for &u8 { open spec fn val(self) -> u8 { *self } fn bitxor(self, r:
 //@@ spec
     ensures (match r { Ok(x) => sp_xor(lhs@, rhs@) == Some(x@), Err(_) => sp_xor(lhs@, rhs@) is None }),       // [C19.scram.xor-is-octetwise] the XOR that combines ClientKey and ClientSignature into the proof (and recovers the key from the proof on the listener) is the octet-by-octet XOR of two strings of the same length, refused for different lengths
 //@@ end
+/// `bytes.slice(n..)` on a frozen buffer: the octets from n on
+#[verifier::external_body]
+pub fn bytes_slice_from(b: &Bytes, n: usize) -> (r: Bytes) requires n <= b@.len() ensures r@ == b@.skip(n as int) { unimplemented!() }
+/// RFC 5802 section 7: gs2-header "n,," (no channel binding, no authzid), attribute names "n=" and "r="
+pub proof fn lemma_scram_attribute_names()
+    ensures GS2_HEADER@ == "n,,"@, USERNAME_KEY@ == "n="@, NONCE_KEY@ == "r="@,       // [C19.constants.scram-attribute-names] the attribute names of the client-first message are RFC 5802's
+{ reveal_strlit("n,,"); reveal_strlit("n="); reveal_strlit("r="); }
+impl ScramVersion {
+//@@ fn file=fe2o3-amqp/src/auth/scram/mod.rs impl=`impl ScramVersion` name=client_first_message as=client_first_message_real id=ScramVersion::client_first_message
+//@@ subst `BytesMut::new()` => `Vec::<u8>::new()` rule=R9
+//@@ subst `let client_first_message = bytes.freeze();` => `let client_first_message = bytes;` rule=R9
+//@@ subst `GS2_HEADER.len()` => `GS2_HEADER.len_v()` rule=R9
+//@@ subst `client_first_message.slice(gs2_header_len..)` => `bytes_slice_from(&client_first_message, gs2_header_len)` rule=R9
+//@@ spec
+    ensures
+        r.0@ == sp_bytes(GS2_HEADER@) + sp_bytes(USERNAME_KEY@) + username@ + seq![0x2cu8] + sp_bytes(NONCE_KEY@) + nonce@,       // [C19.client.scram.client-first-format] the client-first message is RFC 5802's `gs2-header n=<user>,r=<nonce>`: exactly the user name and the nonce given, in that order
+        r.1@ == sp_bytes(USERNAME_KEY@) + username@ + seq![0x2cu8] + sp_bytes(NONCE_KEY@) + nonce@,       // [C19.client.scram.bare-is-the-message-without-the-gs2-header] the "bare" message -- the part the AuthMessage and with it both signatures are computed over -- is the same octets without the gs2 header
+//@@ end
+}
 impl ScramVersion {
     /// ScramVersion::client_first_message (`n,,n=<user>,r=<nonce>` and the same without the gs2 header): stand-in
     #[verifier::external_body]
